@@ -51,7 +51,8 @@ def main(c):
         "key code of the unshifted key, shifted code for Shift chords, text only for chords that produce text",
         "a chord is required to arrive intact when the xterm legacy encoding can carry it (Forward!Expressible); other chords are unconstrained",
         "legacy (non-SGR) mouse encodings are constrained only by the enabling rule (nothing written when not enabled)",
-        "the emulator is on its primary screen (alternate-scroll 1007 translation of wheel steps applies to the alternate screen only)",
+        "alternate scroll (1007): on the alternate screen with no tracking mode a wheel step is one or more cursor-up/down keys (CSI or SS3 form), every other mouse event writes nothing",
+        "Ctrl with a key that shares its control code with other keys (NUL: Space/2/@, FS: 4/\\, GS: 5/], RS: 6/^, US: 7///_) must arrive as Ctrl + some key of that class",
     ]
     if not c.replay:
         c.model_check(specs, "MC_Forward.tla", "MC_Forward.cfg")
